@@ -537,3 +537,19 @@ _ADDED7 = {
 }
 for _pid, _txt in _ADDED7.items():
     PROPS[_pid]["rule"] = PROPS[_pid]["rule"] + _txt
+_ADDED8 = {
+    "C03": " Response data up to a few kB; one byte altered at the very end / beginning.",
+    "C04": " FeedbackRace: feedback reported while the case's own answer is held back until another server's batch has ended (--max-servers 2).",
+    "C07": " NameCollision: nested suite names that spell the same full name must be reported.",
+    "C08": " Classify also for names that only ever get feedback.",
+    "C09": " EmptyMessage: zero-length frames over an io.Pipe, then a quiet peer.",
+    "C10": " Resend: a name handed to the same client again after it was answered; garbage prefixes >= 2^31.",
+    "C11": " InProcess: a server whose start response is the empty message.",
+    "C13": " RawE2E: code names outside the 16.",
+    "C14": " Bodies: handler that panics after a partial response; compressed end-stream payloads that are not valid streams.",
+    "C15": " Listener: two connections of one TracingHTTP2Listener.",
+    "C16": " Handed-over traces are re-read at the end of every sequence; RetryTimer also with a connection ended by the peer and then closed.",
+    "C17": " Raw response status codes up to 999.",
+}
+for _pid, _txt in _ADDED8.items():
+    PROPS[_pid]["rule"] = PROPS[_pid]["rule"] + _txt
